@@ -28,6 +28,7 @@ type Scenario struct {
 	Reads       []int    `json:"read_sizes,omitempty"`
 	Types       []string `json:"go_types,omitempty"`
 	UserFolders int      `json:"user_folders,omitempty"` // model.FolderOpts variant on the iterator
+	Arena       bool     `json:"strings_are_views_into_one_reused_buffer,omitempty"`
 }
 
 type Engine struct{}
@@ -541,12 +542,14 @@ func unfolder(c *simkit.Choices, x *simkit.Ctx) *simkit.Violation {
 		uv = 1 + c.N(model.NumUnfolderVariants-1) // user-defined unfolders for model.Score
 	}
 	related := model.PickRelated(c, nh+1, true)
+	useArena := c.N(3) == 0
+	similar := useArena && c.Bool() // a stream of records of one type, as a log shipper sees it
 	for i := 0; i <= nh; i++ {
 		te := related[i]
-		if i > 0 && c.N(3) == 0 {
+		if i > 0 && (similar || c.N(3) == 0) {
 			te = docs[c.N(len(docs))].te // the same type again: cached unfolders
 		}
-		if uv != 0 && c.N(5) == 0 {
+		if uv != 0 && c.N(5) == 0 && !similar {
 			te = &model.TreeEntry
 		}
 		v := te.Gen(c)
@@ -567,9 +570,26 @@ func unfolder(c *simkit.Choices, x *simkit.Ctx) *simkit.Violation {
 	if c.N(3) == 0 {
 		keyCache = 1 + c.N(4)
 	}
+	// a third of the histories pass every key and string as a view into ONE
+	// buffer that is overwritten from its start by each following document
+	var arena *simkit.Arena
+	if useArena {
+		total := 0
+		for _, d := range docs {
+			n := 0
+			for _, e := range d.evs {
+				n += len(e.S)
+			}
+			if n > total {
+				total = n
+			}
+		}
+		arena = simkit.NewArena(total)
+		sc.Arena = true
+	}
 	simkit.SetCurrent(sc)
 	st.Eval(1)
-	st.Distinct(simkit.NewDigest().Str("unf").Str(fmt.Sprint(sc.History, sc.Types)).Str(sc.Probe).Sum())
+	st.Distinct(simkit.NewDigest().Str("unf").Str(fmt.Sprint(sc.History, sc.Types, sc.Arena)).Str(sc.Probe).Sum())
 	var reused, fresh interface{}
 	var rerr, ferr error
 	var v *simkit.Violation
@@ -591,7 +611,17 @@ func unfolder(c *simkit.Choices, x *simkit.Ctx) *simkit.Violation {
 				skip = true
 				return
 			}
-			err := deliver(u, d.evs, d.ref)
+			var err error
+			if arena != nil {
+				arena.Rewind()
+				for _, e := range d.evs {
+					if err = simkit.EmitArena(u, e, arena); err != nil {
+						break
+					}
+				}
+			} else {
+				err = deliver(u, d.evs, d.ref)
+			}
 			if i == nh {
 				rerr = err
 				reused = model.DeepCopy(val())
